@@ -98,6 +98,8 @@ def oracle_job(job):
         bad.append({"prog": job["prog"], "root": job["root"], "input": s, "clause": kind, "expected": exp, "actual": act, "sig": sig})
 
     for s in job["inputs"]:
+        if corr_parse._TIMEOUTS.value >= corr_parse.MAX_TIMEOUTS:
+            break
         try:
             def work():
                 parsed = s if root.keepTabs else s.expandtabs()
@@ -172,11 +174,14 @@ def oracle_job(job):
             common.with_alarm(4.0, work)
             n += 1
         except common.CaseTimeout:
-            pass
+            with corr_parse._TIMEOUTS.get_lock():
+                corr_parse._TIMEOUTS.value += 1
+            rec("every entry point terminates", s, "returns within 4 s (no nullable repetition body)", "timeout")
     return n, bad
 
 
 def run_oracle(ctx, stream, jobs):
+    corr_parse._TIMEOUTS.value = 0
     res = common.pmap(oracle_job, jobs)
     n = sum(r[0] for r in res)
     bad = [m for r in res for m in r[1]]
